@@ -1791,6 +1791,11 @@ class Interp:
                 st.emit('byname', e, target=cands[0], name=name)
                 yield from self._inline(e, cands[0], c2, pos, kw, st, awaited)
                 return
+            if len(cands) == 1:
+                # unique by name but not inlined here (depth / generator / not awaited): an atomic repository call
+                raises = 'app' in self.opt.exc and self._summary_may_raise(cands)
+                yield from atomic('atomic_repo', cands, raises=raises)
+                return
             self.stats['ambiguous'] += 1
             self.ambiguous_sites.append((st.frame.func.file, e.lineno, name, [f.qualname for f in cands]))
         is_app_like = recv is not None and recv.term[0] in ('param', 'attr', 'awaited', 'call', 'elem', 'unpack', 'item')
